@@ -4,7 +4,7 @@ Only files whose text changes are touched (so make rebuilds only what changed).
 Prints one line per untranslatable root; exit status 0 either way."""
 import os, sys
 sys.path.insert(0, os.path.dirname(os.path.abspath(__file__)))
-import py2coq, roots, tables, xfer, keys, audit
+import py2coq, roots, tables, xfer, keys, audit, sortkeys
 
 
 def regen(root='/repo', out=None):
@@ -22,6 +22,9 @@ def regen(root='/repo', out=None):
     atext, afailed = audit.gen_audit(root)
     files['A_audit'] = atext
     failed.update(afailed)
+    stext, sfailed = sortkeys.gen_sortkeys(root)
+    files['S_sortkeys'] = stext
+    failed.update(sfailed)
     os.makedirs(out, exist_ok=True)
     changed = []
     for stem, text in files.items():
